@@ -338,6 +338,7 @@ def run(ctx):
     from . import C01 as _C01
     _C01.r2_chunking(ctx)            # the pieces of one oversized submission are framed and written in their original order
     from . import C09 as _C09
+    _C09.r8_io_error_closes(ctx)     # ... whatever kind of I/O error it was: a fragment may already be on the transport, nothing may follow it
     _C09.r9_write_errors_funnel(ctx) # a failed transport write ends the session: it is never retried (the transport may already hold a prefix of the frame)
     _C01.r9_complete_writes(ctx)     # a short write that is not completed leaves a frame fragment on the wire: every later frame of every stream is mis-parsed
     from . import C01, C05
